@@ -172,7 +172,7 @@ func genC06(r *Rng) *Scenario {
 	t += r.between(1, 300)
 	o := Out{Conn: 1, AtUs: t, Kind: "raw"}
 	good := EncodeB2C(&Pkt{Type: TPublish, QoS: 1, ID: 9, Topic: "a/x", Pay: "victim"})
-	cls := r.IntN(14)
+	cls := r.IntN(15)
 	if cls == 12 && !r.chance(0.08) {
 		cls = 3 // the 256 MB allocation is legal but slow: keep it rare
 	}
@@ -266,6 +266,26 @@ func genC06(r *Rng) *Scenario {
 		b = append(b, EncodeRemLen(268435455)...)
 		b = append(b, 0, 1, 'a')
 		o.RawHex, o.Class, o.EOFAfter = hex.EncodeToString(b), "len-max-then-eof", true
+	case 14: // gray: ill-formed UTF-8 in the topic, short payload (only panic/alloc apply)
+		topic := []byte{'a', 0xff, 'b'}
+		switch r.IntN(4) {
+		case 0:
+			topic = []byte{0xff}
+		case 1:
+			topic = []byte{0xc3, 0x28, 0xa0, 0xa1}
+		case 2:
+			topic = []byte{0xed, 0xa0, 0x80} // encoded surrogate
+		}
+		q := byte(r.IntN(3))
+		body := putU16(nil, uint16(len(topic)))
+		body = append(body, topic...)
+		if q > 0 {
+			body = putU16(body, 9)
+		}
+		for i := 0; i < r.IntN(3); i++ {
+			body = append(body, 'x')
+		}
+		o.RawHex, o.Class = hex.EncodeToString(frame(0x30|q<<1, body)), "gray-invalid-utf8"
 	case 13: // gray: trailing bytes / reserved bits / odd return codes
 		switch r.IntN(4) {
 		case 0:
@@ -300,7 +320,40 @@ func genC06(r *Rng) *Scenario {
 
 // ---------------------------------------------------------------- C07
 
+// genC07Early: one caller, one request at a time, and a peer so fast that its
+// answer is readable before Transport.Write returns.
+func genC07Early(r *Rng) *Scenario {
+	sc := &Scenario{Cfg: baseCfg(r)}
+	cfg := &sc.Cfg
+	cfg.EarlyReply = true
+	sc.Ops = append(sc.Ops, Op{AtUs: 0, Actor: 0, Kind: "connect"})
+	t := int64(500)
+	for i := 0; i < int(r.between(1, 8)); i++ {
+		t += r.between(1, 200)
+		op := Op{AtUs: t, Actor: 1}
+		switch r.weighted(3, 4, 2, 2, 1) {
+		case 0:
+			op.Kind, op.QoS, op.Topic, op.Token = "publish", 1, "a", fmt.Sprintf("m%d", i)
+		case 1:
+			op.Kind, op.QoS, op.Topic, op.Token = "publish", 2, "b", fmt.Sprintf("m%d", i)
+		case 2:
+			op.Kind, op.Subs = "subscribe", []SubReq{{fmt.Sprintf("f%d", i), byte(r.IntN(3))}}
+		case 3:
+			op.Kind, op.Topics = "unsubscribe", []string{fmt.Sprintf("f%d", i)}
+		case 4:
+			op.Kind = "ping"
+		}
+		sc.Ops = append(sc.Ops, op)
+	}
+	sc.HorizonUs = t + 5000
+	sc.EndUs = sc.HorizonUs + 2000
+	return sc
+}
+
 func genC07(r *Rng) *Scenario {
+	if r.chance(0.12) {
+		return genC07Early(r)
+	}
 	sc := &Scenario{Cfg: baseCfg(r)}
 	cfg := &sc.Cfg
 	cfg.HoldAcks = true
@@ -344,6 +397,11 @@ func genC07(r *Rng) *Scenario {
 		case 3:
 			op.Kind, op.Topics = "unsubscribe", []string{fmt.Sprintf("f%d", i)}
 			ri.kind = "unsub"
+		}
+		if r.chance(0.08) {
+			// this caller gives up by its context; its answer, released later, is then
+			// an acknowledgement nobody waits for
+			op.CtxTimeoutUs = r.between(100, 2000)
 		}
 		reqs = append(reqs, ri)
 		sc.Ops = append(sc.Ops, op)
@@ -469,7 +527,7 @@ func C11Matrix() []c11Cell {
 	for _, ca := range []string{"cancel", "deadline", "localclose", "peereof", "peerreset", "malformed", "refused"} {
 		cells = append(cells, c11Cell{"connect", "connack", ca})
 	}
-	for _, ca := range []string{"cancel", "deadline"} {
+	for _, ca := range []string{"cancel", "deadline", "localclose", "peereof", "peerreset", "writeerr"} {
 		cells = append(cells, c11Cell{"connect", "before", ca})
 	}
 	for _, ca := range []string{"cancel", "localclose", "peereof", "peerreset"} {
@@ -527,8 +585,8 @@ func applyCause(sc *Scenario, cause string, t int64, target int, r *Rng) {
 	case "peerreset":
 		sc.Faults = append(sc.Faults, Fault{Kind: "cutAt", Conn: 1, AtUs: t, Reset: true})
 	case "malformed":
-		raws := []string{hx(0xf0, 0), hx(0x36, 3, 0, 1, 'a'), hx(0x41, 2, 0, 1), hx(0x90, 0)}
-		sc.Script = append(sc.Script, Out{Conn: 1, AtUs: t - sc.Cfg.LatB2CUs, Kind: "raw", RawHex: raws[r.IntN(len(raws)-1)], Class: "malformed"})
+		raws := []string{hx(0xf0, 0), hx(0x36, 3, 0, 1, 'a'), hx(0x41, 2, 0, 1), hx(0x40, 0x80, 0x80, 0x80, 0x80, 0x01), hx(0x90, 0), hx(0x20, 1, 0)}
+		sc.Script = append(sc.Script, Out{Conn: 1, AtUs: t - sc.Cfg.LatB2CUs, Kind: "raw", RawHex: raws[r.IntN(len(raws))], Class: "malformed"})
 	case "refused":
 		sc.Faults = append(sc.Faults, Fault{Kind: "connackRefuse", Conn: 1, Code: byte(r.between(1, 5))})
 	case "disconnect":
@@ -613,9 +671,22 @@ func genC11Cell(r *Rng, cell c11Cell) *Scenario {
 		sc.Ops = append(sc.Ops, Op{AtUs: 100, Actor: 0, Kind: "connect"})
 		switch cell.step {
 		case "before":
-			applyCause(sc, cell.cause, 50, 0, r)
+			if cell.cause == "writeerr" {
+				// the CONNECT write itself fails
+				sc.Faults = append(sc.Faults, Fault{Kind: "writeErr", Conn: 1, N: 0, Prefix: int(r.between(0, 5))})
+			} else if cell.cause == "localclose" {
+				// the transport is closed locally before Connect is called: the client
+				// object must exist first
+				sc.Ops = append([]Op{{AtUs: 10, Actor: 5, Kind: "handle", Handler: 1}}, sc.Ops...)
+				sc.Ops = append(sc.Ops, Op{AtUs: 50, Actor: -1, Kind: "close", Cli: 0})
+			} else {
+				if cell.cause == "peereof" || cell.cause == "peerreset" {
+					sc.Ops = append([]Op{{AtUs: 10, Actor: 5, Kind: "handle", Handler: 1}}, sc.Ops...)
+				}
+				applyCause(sc, cell.cause, 50, len(sc.Ops)-1, r)
+			}
 			if cell.cause == "deadline" {
-				sc.Ops[0].CtxTimeoutUs = 1
+				sc.Ops[len(sc.Ops)-1].CtxTimeoutUs = 1
 				sc.Faults = append(sc.Faults, Fault{Kind: "connackNever", Conn: 1})
 			}
 		case "connack":
